@@ -15,6 +15,7 @@ struct Machine {
     Box& box;
     FwConfig cfg;
     std::size_t events_seen = 0;
+    int patches = 0;
     bool dead = false;
     std::string abort_site;
     explicit Machine(const Plan& p) : boxp(BoxPool::take(p.knob("user_mem", 0) != 0)), box(*boxp) {
@@ -30,7 +31,15 @@ struct Machine {
     void host(const Step& s) {
         auto& t = *box.t;
         s64 k = s.arg(0);
-        switch (k % 9) {
+        switch (k % 10) {
+        case 9: // the host patches the code under an idling core: the idle instruction becomes real work followed by a new idle loop
+            if (cfg.idle_addr != 0xFFFFFFFF && patches < 6) {
+                t.ProgramWrite(cfg.idle_addr, op::INC_A0);
+                t.ProgramWrite(cfg.idle_addr + 1, op::BRR_SELF);
+                cfg.idle_addr += 1;
+                ++patches;
+            }
+            break;
         case 7: // routing changed while the system runs
             t.MMIOWrite((u16)(0x206 + 2 * (s.arg(1) % 4)), (u16)s.arg(2));
             break;
@@ -60,8 +69,9 @@ struct Machine {
         case 5:
             t.MMIOWrite(0x202, (u16)s.arg(2)); // acknowledge
             break;
-        default:
-            t.MMIOWrite(0x2C6, (u16)s.arg(2)); // queue an audio word
+        default: // queue one to five audio words (odd counts leave a half frame behind, refills land on a partly drained queue)
+            for (s64 i = 0, n = 1 + s.arg(1) % 5; i < n; ++i)
+                t.MMIOWrite(0x2C6, (u16)(s.arg(2) + i));
             break;
         }
     }
@@ -186,7 +196,7 @@ public:
         for (int i = 0; i < n_host; ++i) {
             Step s;
             s.op = "host";
-            s.a = {(s64)r.below(9), (s64)r.below(32), (s64)(r.chance(1, 2) ? (r.next() & 0xFFFF) : (1u << (9 + r.below(6))))};
+            s.a = {(s64)(r.chance(1, 6) ? 9 : r.below(10)), (s64)r.below(32), (s64)(r.chance(1, 2) ? (r.next() & 0xFFFF) : (1u << (9 + r.below(6))))};
             if (s.a[0] == 4)
                 s.a[2] = (s64)(r.chance(3, 4) ? r.pick(kStarts) : (u32)r.range(0, 300));
             host.emplace_back(r.below(budget), s);
